@@ -56,11 +56,11 @@ class Finding:
 # recognises a construct by its shape; a mismatch there is only evidence that the construct was rewritten.
 SEMANTIC_RULES = {
     "C01": {"R1", "R3", "R4"},
-    "C02": {"R2", "R3", "R5", "R7"},
+    "C02": {"R1", "R2", "R3", "R5", "R7"},
     "C03": {"R1", "R4", "R5", "R6", "R7"},
     "C04": {"R1", "R2", "R3", "R4"},
     "C05": {"R1", "R2", "R3", "R6", "R8"},
-    "C06": {"R2", "R3", "R4", "R5", "R8"},
+    "C06": {"R1", "R2", "R3", "R4", "R5", "R8"},
     "C07": {"R1v", "R2", "R4"},
     "C08": {"G1", "G2", "G5", "G6r", "G8"},
     "C09": {"R4", "R5"},
